@@ -463,11 +463,17 @@ def check_unrolled_graph(ctx, scf, rid):
     sl = scf.func("scf_loop")
     n2 = 0
     for c in calls_in(sl):
-        if callee_attr(c) in ("scf_forward0", "scf_forward1", "scf_forward2"):
+        names_ = [callee_attr(c)] if callee_attr(c) in ("scf_forward0", "scf_forward1", "scf_forward2") else []
+        if not names_ and isinstance(c.func, ast.Name):
+            # a driver chosen through a local: the call stands for a call of every driver the local is bound to
+            binds = [a_.value for a_ in ast.walk(sl) if isinstance(a_, ast.Assign) and any(isinstance(t_, ast.Name) and t_.id == c.func.id for t_ in a_.targets)]
+            if binds and all(isinstance(b_, ast.Name) or (isinstance(b_, ast.Constant) and b_.value is None) for b_ in binds):
+                names_ = [b_.id for b_ in binds if isinstance(b_, ast.Name) and b_.id in ("scf_forward0", "scf_forward1", "scf_forward2")]
+        for nm_ in names_:
             kws = {k.arg: norm(k.value) for k in c.keywords}
             n2 += 1
-            ctx.check(kws.get("backward") == "True", rid, scf, c, "scf_loop", f"{callee_attr(c)}(backward=True)", "scf_backward=2 calls the driver with backward=True",
-                      f"scf_backward=2 calls {callee_attr(c)} with backward={kws.get('backward')}")
+            ctx.check(kws.get("backward") == "True", rid, scf, c, "scf_loop", f"{nm_}(backward=True)", "scf_backward=2 calls the driver with backward=True",
+                      f"scf_backward=2 calls {nm_} with backward={kws.get('backward')}")
     if n2 < 3:
         raise AnalysisError("scf_loop: unrolled driver calls not found")
 
